@@ -72,4 +72,17 @@ VARIANTS = [
     V("C05", "tuple rendered as List", GEN, '            return f"Tuple<{\', \'.join(types)}>"', '            return f"List<{\', \'.join(types)}>"', "C05.KIND-RENDER"),
     V("C05", "unparse round trip", GEN, "<<unparse>>", "", None),
     V("C05", "benign: leaf match as if-chain", GEN, '                case "int":\n                    return "Int"\n                case "str":\n                    return "String"', '                case "int":\n                    return "Int"\n                case "str" if True:\n                    return "String"', None),
+    # ------------------------------------------------------------------ C07
+    V("C07", "stop descending if-else", MH, "            if stmt.else_body:\n                return_stmts += find_return_stmts_recursive(stmt.else_body.body)\n        elif isinstance(stmt, mp_nodes.Block):", "        elif isinstance(stmt, mp_nodes.Block):", "C07.RETURN-FINDER"),
+    V("C07", "drop WithStmt arm", MH, "        elif isinstance(stmt, mp_nodes.WithStmt):\n            return_stmts += find_return_stmts_recursive(stmt.body.body)\n", "", "C07.RETURN-FINDER"),
+    V("C07", "skip unreachable blocks", MH, "        elif isinstance(stmt, mp_nodes.Block):\n            return_stmts += find_return_stmts_recursive(stmt.body)", "        elif isinstance(stmt, mp_nodes.Block):\n            if stmt.is_unreachable:\n                continue\n            return_stmts += find_return_stmts_recursive(stmt.body)", "C07.RETURN-FINDER"),
+    V("C07", "float literal inferred as int", MH, 'return sds_types.NamedType(name="float", qname="builtins.float")', 'return sds_types.NamedType(name="int", qname="builtins.int")', "C07.INFER-TABLE"),
+    V("C07", "result named by constant", VIS, "                result_name = result_docstring.name or next(name_generator)\n\n                all_results.append(", '                result_name = result_docstring.name or "result"\n\n                all_results.append(', "C07.RESULT-NAMES"),
+    V("C07", "id uses other name", VIS, '                        id=f"{function_id}/{result_name}",\n                        type=type_,\n                        name=f"{result_name}",\n                    ),\n                )\n        else:', '                        id=f"{function_id}/{function_id}",\n                        type=type_,\n                        name=f"{result_name}",\n                    ),\n                )\n        else:', "C07.RESULT-NAMES"),
+    V("C07", "generator starts at 0", VIS, "for x in range(1, 1000):", "for x in range(0, 1000):", "C07.RESULT-NAMES"),
+    V("C07", "None suppressed only as sole result", GEN, '            if result_type["kind"] == "NamedType" and result_type["qname"] == "builtins.None":\n                return ""', '            if len(function_results) == 1 and result_type["kind"] == "NamedType" and result_type["qname"] == "builtins.None":\n                return ""', "C07.NONE-SUPPRESS"),
+    V("C07", "constructor gets results", VIS, '        if node.name == "__init__":\n            return []\n\n        # Get type', '        # Get type', "C07.NONE-SUPPRESS"),
+    V("C07", "inferred type not collected", VIS, "                        type_ = mypy_expression_to_sds_type(return_stmt.expr)\n                        if isinstance(type_, sds_types.NamedType | sds_types.TupleType):\n                            types.add(type_)", "                        type_ = mypy_expression_to_sds_type(return_stmt.expr)\n                        if isinstance(type_, sds_types.NamedType):\n                            types.add(type_)", "C07.INFER-COLLECT"),
+    V("C07", "unparse round trip", VIS, "<<unparse>>", "", None),
+    V("C07", "benign: while/for split", MH, "        elif isinstance(stmt, mp_nodes.WhileStmt | mp_nodes.ForStmt):", "        elif isinstance(stmt, (mp_nodes.WhileStmt, mp_nodes.ForStmt)):", None),
 ]
